@@ -1,5 +1,6 @@
 import Bch.Drive.Common
 import Bch.Model.TxSort
+import Bch.Model.TxSortHeap
 import Bch.Model.CoinSet
 namespace Bch.Drive.C18
 open Bch Bch.Drive Bch.Model Bch.Model.TxSort
@@ -52,16 +53,53 @@ def chain (le : α → α → Bool) : List α → Bool
 def isPermIn (a b : List TxIn) : Bool := a.length == b.length && a.all (fun x => a.count x == b.count x)
 def isPermOut (a b : List TxOut) : Bool := a.length == b.length && a.all (fun x => a.count x == b.count x)
 
+/-- the heap-level model (`Model/TxSortHeap.lean`) run on the harness's layout: both slices are the windows `[1:1+n]`
+    of backing arrays that hold sentinel objects in front and in the spare capacity behind; `Sort`, `IsSorted` and
+    `InPlaceSort` (Go's insertion-sort schedule) are executed and the frame clauses evaluated — the same clauses the
+    harness observes on the real objects (`heapFrame` in harness/c18.go). "ok" or the clauses that fail. -/
+def heapFrame (tx : Tx) : String :=
+  let sI : TxIn := ⟨[], 7777, 0⟩
+  let sO : TxOut := ⟨7777, [0x51]⟩
+  let nI := tx.ins.length; let nO := tx.outs.length
+  let h : TxSortHeap.Heap :=
+    { ins := sI :: tx.ins ++ [sI, sI], outs := sO :: tx.outs ++ [sO, sO],
+      inArrs := [List.range (nI + 3)], outArrs := [List.range (nO + 3)] }
+  let t : TxSortHeap.MsgTx := ⟨⟨0, 1, nI, nI + 2⟩, ⟨0, 1, nO, nO + 2⟩⟩
+  -- Sort
+  let c := TxSortHeap.copyTx h t
+  let r := TxSortHeap.inPlaceSortGo c.1 c.2
+  let bad : List String := []
+  let bad := if r.inArrs.take 1 != h.inArrs || r.outArrs.take 1 != h.outArrs then bad ++ ["sort:pointer-array-of-original-written"] else bad
+  let bad := if r.ins.take h.ins.length != h.ins || r.outs.take h.outs.length != h.outs then bad ++ ["sort:object-of-original-written"] else bad
+  let fresh := c.2.tin.arr ≥ h.inArrs.length && c.2.tout.arr ≥ h.outArrs.length &&
+    (TxSortHeap.window (r.inArrs.getD c.2.tin.arr []) c.2.tin).all (· ≥ h.ins.length) &&
+    (TxSortHeap.window (r.outArrs.getD c.2.tout.arr []) c.2.tout).all (· ≥ h.outs.length)
+  let bad := if !fresh then bad ++ ["sort:result-shares-memory-with-original"] else bad
+  -- IsSorted
+  let bad := if (TxSortHeap.isSorted h t).1 != h then bad ++ ["issorted:writes"] else bad
+  -- InPlaceSort
+  let q := TxSortHeap.inPlaceSortGo h t
+  let bad := if q.ins != h.ins || q.outs != h.outs then bad ++ ["inplace:object-written"] else bad
+  let aI := q.inArrs.getD 0 []; let aO := q.outArrs.getD 0 []
+  let outside := aI.take 1 == [0] && aI.drop (nI + 1) == [nI + 1, nI + 2] && aO.take 1 == [0] && aO.drop (nO + 1) == [nO + 1, nO + 2]
+  let bad := if !outside then bad ++ ["inplace:written-outside-the-slice-window"] else bad
+  let wI := TxSortHeap.window aI t.tin; let wO := TxSortHeap.window aO t.tout
+  let permOk := wI.length == nI && wO.length == nO && (List.range' 1 nI).all (fun p => wI.count p == 1) && (List.range' 1 nO).all (fun p => wO.count p == 1)
+  let bad := if !permOk then bad ++ ["inplace:window-not-a-permutation-of-the-same-pointers"] else bad
+  -- the heap run denotes the value-level model's result
+  let bad := if TxSortHeap.readTx q t != SortTx tx || TxSortHeap.readTx r c.2 != SortTx tx then bad ++ ["model:heap-run-differs-from-SortTx"] else bad
+  if bad.isEmpty then "ok" else ",".intercalate bad
+
 def run : Runner
   | "sort", [_, ins, outs], impl => do
     let ins ← list? parseIn ins
     let outs ← list? parseOut outs
     let tx : Tx := ⟨ins, outs⟩
     let s := SortTx tx
-    let model := " ".intercalate [insTok s.ins, outsTok s.outs, tokB (IsSorted tx), tokB (IsSorted s), "1", "1", "1", "1", insTok s.ins, outsTok s.outs]
+    let model := " ".intercalate [insTok s.ins, outsTok s.outs, tokB (IsSorted tx), tokB (IsSorted s), "1", "1", "1", "1", insTok s.ins, outsTok s.outs, heapFrame tx]
     -- C18 evaluated on the implementation's observation with the spec-side keys
     let prop := match impl.splitOn " " with
-      | [si, so, was, isS, unch, metaOk, idem, indep, pi, po] =>
+      | [si, so, was, isS, unch, metaOk, idem, indep, pi, po, heap] =>
         (match list? parseIn si, list? parseOut so, list? parseIn pi, list? parseOut po with
         | some si, some so, some pi, some po =>
           if !isPermIn ins si || !isPermOut outs so then "violated:not a permutation"
@@ -70,6 +108,7 @@ def run : Runner
           else if isS != "1" || idem != "1" then "violated:not idempotent"
           else if unch != "1" || indep != "1" then "violated:original modified or shared"
           else if metaOk != "1" then "violated:other fields changed"
+          else if heap != "ok" then s!"violated:memory written outside the specified frame ({heap})"
           else if !isPermIn ins pi || !isPermOut outs po || !chain inKeyLe pi || !chain outKeyLe po then "violated:InPlaceSort"
           else if pi.map (fun i => (i.hash, i.index)) != si.map (fun i => (i.hash, i.index)) || po != so then "violated:in-place order differs"
           else "ok"
